@@ -646,6 +646,7 @@ impl PartialEq<Self> for XType {
                         .iter()
                         .zip(b.params.iter())
                         .all(|(a, b)| a.type_.eq(&b.type_))
+                    && a.ret.eq(&b.ret)
             }
             (Self::XCallable(ref a), Self::XFunc(ref b)) => {
                 b.generic_params.is_none()
